@@ -49,6 +49,9 @@ func genConfLine(r *Rng) string {
 			"ver:'OWASP_CRS/4.0.0-'", "ver:'OWASP_CRS/4.0.0--x-'", " SecComponentSignature \"OWASP_CRS/4.0.0\"", "setvar:tx.crs_setup_version=", "setvar:txXcrs_setup_version=400",
 			"setvar:tx.crs_setup_version=400 setvar:tx.crs_setup_version=4", "# Copyright (c) 2021-2024 Core Rule Set project. All rights reserved.x"})
 	case 9:
+		if r.Chance(1, 2) {
+			return "SecAction \"id:900990,phase:1,pass,nolog,ver:'OWASP_CRS/" + v + "',setvar:tx.crs_setup_version=" + strings.Join(strings.FieldsFunc(v, func(c rune) bool { return c < '0' || c > '9' }), "") + "\""
+		}
 		return ""
 	case 10:
 		return "# Copyright (c) 2006-2020 Trustwave and contributors. All rights reserved."
@@ -127,9 +130,76 @@ func markersShow(out string, v string, y string) (bool, string) {
 			}
 		}
 	}
-	_ = short
-	_ = y
+	for _, l := range strings.Split(out, "\n") {
+		if i := strings.Index(l, "setvar:tx.crs_setup_version="); i >= 0 {
+			d := l[i+len("setvar:tx.crs_setup_version="):]
+			j := 0
+			for j < len(d) && d[j] >= '0' && d[j] <= '9' {
+				j++
+			}
+			if j > 0 && d[:j] != short {
+				return false, "[short version] " + l
+			}
+		}
+		for _, p := range []string{"# Copyright (c) 2021-"} {
+			if strings.HasPrefix(l, p) && (strings.HasSuffix(l, " Core Rule Set project. All rights reserved.") || strings.HasSuffix(l, " CRS project. All rights reserved.")) {
+				yr := l[len(p):]
+				if len(yr) >= 5 && yr[4] == ' ' && allDigits(yr[:4]) && yr[:4] != y {
+					return false, "[year] " + l
+				}
+			}
+		}
+	}
 	return true, ""
+}
+
+func allDigits(s string) bool {
+	for _, c := range s {
+		if c < '0' || c > '9' {
+			return false
+		}
+	}
+	return s != ""
+}
+
+// which marker kinds do the lines that differ between two results carry?
+// known finding C14-version-forms is about the ver:'OWASP_CRS/..' and SecComponentSignature
+// markers only (their read-side patterns are narrower than the accepted versions)
+func onlyNarrowMarkers(a, b string) bool {
+	la, lb := strings.Split(a, "\n"), strings.Split(b, "\n")
+	if len(la) != len(lb) {
+		return false
+	}
+	for i := range la {
+		if la[i] == lb[i] {
+			continue
+		}
+		if strings.HasPrefix(la[i], "# OWASP") || strings.HasPrefix(la[i], "# Copyright") {
+			return false
+		}
+		if !strings.Contains(la[i], "ver:'OWASP_CRS/") && !strings.HasPrefix(la[i], "SecComponentSignature") {
+			return false
+		}
+		// a line that also carries the short version: only the narrow marker may differ
+		if i1, i2 := strings.Index(la[i], "crs_setup_version="), strings.Index(lb[i], "crs_setup_version="); i1 >= 0 && i2 >= 0 {
+			if digitsAt(la[i][i1:]) != digitsAt(lb[i][i2:]) {
+				return false
+			}
+		}
+	}
+	return true
+}
+
+func digitsAt(s string) string {
+	i := strings.Index(s, "=")
+	out := ""
+	for _, c := range s[i+1:] {
+		if c < '0' || c > '9' {
+			break
+		}
+		out += string(c)
+	}
+	return out
 }
 
 func suiteCopyright(env *Env, res *Result) {
@@ -166,22 +236,27 @@ func suiteCopyright(env *Env, res *Result) {
 		seq, _ := updateRulesImpl(v, y, mid)
 		twice, _ := updateRulesImpl(v, y, out)
 		input := map[string]string{"contents": text, "v1": v1, "y1": y1, "v": v, "y": y}
-		shapeOf := func(base string) string {
-			if !isSimpleVersion(v) || !isSimpleVersion(v1) || !fileVersionsSimple(text) {
+		nonsimple := !isSimpleVersion(v) || !isSimpleVersion(v1) || !fileVersionsSimple(text)
+		shapeOf := func(base string, a, b string) string {
+			if nonsimple && onlyNarrowMarkers(a, b) {
 				return base + "_nonsimple_version"
 			}
 			return base
 		}
 		if twice != out {
-			res.addFailure(Failure{Kind: "copyright", Shape: shapeOf("copyright_not_idempotent"), Input: input,
+			res.addFailure(Failure{Kind: "copyright", Shape: shapeOf("copyright_not_idempotent", out, twice), Input: input,
 				Detail: fmt.Sprintf("repeating -v %s -y %s changes the file: %q -> %q", v, y, clip(out, 300), clip(twice, 300))})
 		} else if seq != out {
-			res.addFailure(Failure{Kind: "copyright", Shape: shapeOf("copyright_history_dependent"), Input: input,
+			res.addFailure(Failure{Kind: "copyright", Shape: shapeOf("copyright_history_dependent", seq, out), Input: input,
 				Detail: fmt.Sprintf("after an earlier run with -v %s the result differs: %q vs %q", v1, clip(seq, 300), clip(out, 300))})
 		}
 		if ok2, line := markersShow(seq, v, y); !ok2 {
-			res.addFailure(Failure{Kind: "copyright", Shape: shapeOf("copyright_marker_not_updated"), Input: input,
-				Detail: fmt.Sprintf("marker line does not show %s: %q", v, line)})
+			shape := "copyright_marker_not_updated"
+			if nonsimple && !strings.HasPrefix(line, "[") && !strings.HasPrefix(line, "# OWASP") {
+				shape += "_nonsimple_version"
+			}
+			res.addFailure(Failure{Kind: "copyright", Shape: shape, Input: input,
+				Detail: fmt.Sprintf("marker line does not show %s / %s: %q", v, y, line)})
 		}
 	}
 	compareWithModel(env, res, cases)
